@@ -247,12 +247,19 @@ def update_connectivity(
     # By constructing the array using new_fill_value where needed,
     # setting the dtype explicitly, and adding the _FillValue attribute,
     # xarray will cooperate.
+    def new_value(item: Any) -> Any:
+        # Both missing entries and entries that refer to a dropped element
+        # are represented using the fill value.
+        if item is numpy.ma.masked:
+            return fill_value
+        value = column_values[item]
+        if value is numpy.ma.masked:
+            return fill_value
+        return value
+
     include_row = ~numpy.ma.getmask(row_indexes)
     raw_values = numpy.array([
-        [
-            column_values[item] if item is not numpy.ma.masked else fill_value
-            for item in row
-        ]
+        [new_value(item) for item in row]
         for row in old_array[include_row]
     ], dtype=dtype)
     values = numpy.ma.masked_equal(raw_values, fill_value)
@@ -1232,7 +1239,7 @@ class UGrid(DimensionConvention[UGridKind, UGridIndex]):
             topology_variables.append(update_connectivity(
                 topology.face_edge_connectivity, topology.face_edge_array,
                 new_face_indexes, new_edge_indexes,
-                primary_dimension=topology.edge_dimension, fill_value=new_fill_value))
+                primary_dimension=topology.face_dimension, fill_value=new_fill_value))
 
         if topology.has_valid_face_face_connectivity:
             topology_variables.append(update_connectivity(
@@ -1244,7 +1251,7 @@ class UGrid(DimensionConvention[UGridKind, UGridIndex]):
             topology_variables.append(update_connectivity(
                 topology.edge_face_connectivity, topology.edge_face_array,
                 new_edge_indexes, new_face_indexes,
-                primary_dimension=topology.face_dimension, fill_value=new_fill_value))
+                primary_dimension=topology.edge_dimension, fill_value=new_fill_value))
 
         if has_edges and topology.has_valid_edge_node_connectivity:
             topology_variables.append(update_connectivity(
